@@ -292,6 +292,12 @@ def arg_program(draw, fnspec, pick_ref, patterns=None):
         kw[name] = pick_ref()
       else:
         late.append(['setattr', name, pick_ref()])
+  if info.varkw and draw(st.floats(0, 1)) < 0.15:
+    # a **kwargs entry named like a positional-only parameter or like the *args parameter
+    # (legal in a direct call: f(1, p0=2) binds p0 into **kw)
+    clash = [n for n in info.posonly] + (['args'] if info.varargs else [])
+    if clash:
+      kw[draw(st.sampled_from(clash))] = pick_ref()
   if nvar and not ctor_var:
     late.append(['setslice', ['V', None, None], [pick_ref() for _ in range(nvar)]])
   late = draw(st.permutations(late)) if late else []
